@@ -168,9 +168,20 @@ structure Srv where
   now : Nat
 deriving DecidableEq, Repr
 
+/-- GHOST annotation of an answer (not printed by the driver, not part of the code's behaviour): which call site
+of `write_dns` produced it.  It lets the property theorems speak about "answers carrying tunnel data for
+session u" without re-parsing query names. -/
+inductive Tag where
+  | ctrl                 -- handshake / option / error answers (VACK, LNAK, BADIP, ...)
+  | chunk (u : Nat)      -- `send_chunk_or_dataless`: data header (+ fragment) for session u, first `write_dns`
+  | dupe (u : Nat)       -- `send_chunk_or_dataless`: the same packet again, to the remembered duplicate (id2/from2)
+  | cached (u : Nat)     -- `answer_from_dnscache`: replay of a cached answer of session u
+  | qmem (u : Nat)       -- `answer_from_qmem`: the illegal "x" answer to a recognised duplicate of session u
+deriving DecidableEq, Repr
+
 /-- output events (docs/SRV_PROTOCOL.md) -/
 inductive Event where
-  | ans (dst : Addr) (id type downenc : Nat) (name data : List Nat)
+  | ans (dst : Addr) (id type downenc : Nat) (name data : List Nat) (tag : Tag := .ctrl)
   | raw (dst : Addr) (bytes : List Nat)
   | tunw (frame : List Nat)
   | fwd (dst : Addr)
